@@ -34,12 +34,13 @@ MStep ==
          sn == IF isRet THEN tc.node ELSE n
          readNames == IF n = 0 THEN {} ELSE UNION {NamesOfCell(e, c) : c \in rd' \ {0}}
          wrCells == IF isPush THEN {} ELSE {c \in wr' : c <= Len(cells)}
-         modNames == UNION {NamesOfCell(se, c) : c \in {x \in wrCells : cells'[x] # Unbound}}
-         delNames == UNION {NamesOfCell(se, c) : c \in {x \in wrCells : cells'[x] = Unbound}}
+         modNames == UNION {NamesOfCell(se, c) : c \in {x \in wrCells : cells'[x] # Unbound /\ x \notin hb'}}
+         \* leaving a handler unbinds its `as` name implicitly (also when the handler re-assigned it): not a statement effect
+         delNames == UNION {NamesOfCell(se, c) : c \in {x \in wrCells : cells'[x] = Unbound}} \ Range(P.hnames)
          readBad == readNames \ ARead(f, n)
          \* binding / unbinding of an `except E as name` variable happens on entering / leaving the handler, not in a statement
-         modBad  == IF sn = 0 THEN {} ELSE (modNames \ Range(P.hnames)) \ AMod(sf, sn)
-         delBad  == IF sn = 0 THEN {} ELSE (delNames \ Range(P.hnames)) \ (ADel(sf, sn) \cup AMod(sf, sn))
+         modBad  == IF sn = 0 THEN {} ELSE modNames \ AMod(sf, sn)
+         delBad  == IF sn = 0 THEN {} ELSE delNames \ (ADel(sf, sn) \cup AMod(sf, sn))
      IN
      bad' = IF bad # "" THEN bad
             ELSE IF readBad # {} THEN ToString(<<"read", f, n, CHOOSE x \in readBad : TRUE>>)
